@@ -300,4 +300,59 @@ theorem lookupRel_complete {f : File} {ix : List Entry} (hs : StrictSorted ix) {
     simp only [answer, hk, hn]
     rw [if_neg (by omega)]
 
+/-! ### per-element cache transparency -/
+
+theorem iterElemC_spec (f : File) (ix : List Entry) (c : Cache) (i : Nat) (hc : CacheOk f c) :
+    (iterElemC f ix c i).2 = iterElem f ix i ∧ CacheOk f (iterElemC f ix c i).1 := by
+  unfold iterElemC iterElem
+  cases hi : ix[i]? with
+  | none => exact ⟨rfl, hc⟩
+  | some e =>
+    simp only [Option.bind_some]
+    cases hk : e.kind with
+    | public_ =>
+      have hg := Memo.get_spec f.pubAt c.pubs e.offset hc.1
+      simp only
+      refine ⟨?_, hg.2, hc.2⟩
+      rw [hg.1]
+      simp [entryName, hk]
+    | func =>
+      have hg := Memo.get_spec f.funcAt c.funcs e.offset hc.2
+      simp only
+      refine ⟨?_, hc.1, hg.2⟩
+      rw [hg.1]
+      simp only [entryName, hk]
+      cases f.funcAt e.offset <;> rfl
+    | other =>
+      simp only
+      exact ⟨by simp [entryName, hk], hc⟩
+
+theorem runSteps_spec (f : File) (ix : List Entry) (steps : List Step) : ∀ (c : Cache), CacheOk f c →
+    runSteps f ix c steps = steps.map (pureStep f ix) := by
+  induction steps with
+  | nil => intro c _; rfl
+  | cons st rest ih =>
+    intro c hc
+    cases st with
+    | lookup a =>
+      have := lookupC_spec f ix c a hc
+      simp only [runSteps, List.map_cons, pureStep]
+      rw [this.1, ih _ this.2]
+    | elem i =>
+      have := iterElemC_spec f ix c i hc
+      simp only [runSteps, List.map_cons, pureStep]
+      rw [this.1, ih _ this.2]
+
+/-- the elements `0..symbol_count()` put together are the enumeration -/
+theorem iterSymbols_eq_elems (f : File) (ix : List Entry) :
+    (List.range ix.length).filterMap (iterElem f ix) = iterSymbols f ix := by
+  have := filterMap_range_getElem? ix (fun _ e => (entryName f e).map fun n => (e.addr, n))
+  unfold iterElem iterSymbols
+  rw [this]
+  clear this
+  generalize 0 = k
+  induction ix generalizing k with
+  | nil => rfl
+  | cons e rest ih => simp only [List.zipIdx_cons, List.filterMap_cons]; rw [ih]
+
 end Breakpad
